@@ -240,6 +240,35 @@ fn loco_sequence(ctx: &mut Ctx, rng: &mut Rng) -> (bool, bool) {
     v["mass"] = json!(m0);
     v["mu"] = json!(mu0);
     v["force_max"] = json!(f0);
+    // redundant mass data: baseline + ballast + component masses, complete or partial, agreeing with `mass` or not
+    let breakdown = rng.chance(0.35);
+    let mut breakdown_log = json!(null);
+    if breakdown {
+        let complete = rng.chance(0.75);
+        let comp_total = if kind == Kind::Conv { 2 } else { 1 };
+        let comps_set = if complete { comp_total } else { rng.usize(0, comp_total - 1) };
+        let agree = rng.chance(0.7);
+        let total = m0.unwrap_or_else(|| rng.lrange(80e3, 250e3));
+        let part = total / (comp_total as f64 + 2.0);
+        let (baseline, ballast) = if rng.chance(0.85) { (Some(part * 1.5), Some(part * 0.5)) } else if rng.chance(0.5) { (Some(part * 2.0), None) } else { (None, Some(part * 2.0)) };
+        let comp_mass = if agree { part } else { part * rng.range(1.05, 1.6) };
+        v["baseline_mass"] = json!(baseline);
+        v["ballast_mass"] = json!(ballast);
+        let lt = v["loco_type"].as_object_mut().unwrap().values_mut().next().unwrap();
+        let names: &[&str] = if kind == Kind::Conv { &["fc", "gen"] } else { &["res"] };
+        for (i, n) in names.iter().enumerate() {
+            if i < comps_set {
+                lt[*n]["mass"] = json!(comp_mass);
+                for k in ["specific_pwr", "specific_energy"] {
+                    if lt[*n].get(k).is_some() {
+                        lt[*n][k] = json!(null);
+                    }
+                }
+            }
+        }
+        breakdown_log = json!({"baseline": baseline, "ballast": ballast, "component_masses_set": comps_set, "of": comp_total, "component_mass": comp_mass, "sum_agrees_with_mass": agree});
+        ctx.count(if complete { "obs.loco_load_with_complete_breakdown" } else { "obs.loco_load_with_partial_breakdown" });
+    }
     let mut l = match Locomotive::from_json(v.to_string()) {
         Ok(l) => l,
         Err(_) => {
@@ -249,11 +278,29 @@ fn loco_sequence(ctx: &mut Ctx, rng: &mut Rng) -> (bool, bool) {
     };
     ctx.count("obs.loco_loaded");
     let (mut acc, mut rej) = (false, false);
-    let mut log: Vec<Value> = vec![json!({"loaded": {"mass": m0, "mu": mu0, "force_max": f0, "kind": format!("{kind:?}")}})];
+    if breakdown {
+        ctx.count("obs.loco_loaded_with_breakdown");
+    }
+    let mut log: Vec<Value> = vec![json!({"loaded": {"mass": m0, "mu": mu0, "force_max": f0, "kind": format!("{kind:?}"), "breakdown": breakdown_log}})];
     for _ in 0..rng.usize(1, 12) {
         let b = lview(&l);
         let pat = known_pattern(&b);
-        let call = rng.usize(0, 10);
+        let call = rng.usize(0, 12);
+        if call >= 11 {
+            // component-level update (environment step: the component cannot see the locomotive, so nothing is
+            // demanded of the locomotive's getters right after it; later locomotive-level calls are judged)
+            let m = if rng.chance(0.4) { None } else { Some(uc::KG * rng.lrange(2e3, 40e3)) };
+            let which = rng.usize(0, 1);
+            let r = match (kind == Kind::Conv, which) {
+                (true, 0) => l.fuel_converter_mut().map(|c| c.set_mass(m, MassSideEffect::None)),
+                (true, _) => l.generator_mut().map(|c| c.set_mass(m, MassSideEffect::None)),
+                (false, _) => l.reversible_energy_storage_mut().map(|c| c.set_mass(m, MassSideEffect::None)),
+            };
+            let ok = matches!(r, Some(Ok(())));
+            log.push(json!({"component_call": "set_mass", "component": if kind == Kind::Conv { if which == 0 { "fc" } else { "gen" } } else { "res" }, "mass": m.map(|x| x.value), "accepted": ok}));
+            ctx.count(&format!("obs.loco_component_set_mass.{}", if ok { "accepted" } else { "rejected" }));
+            continue;
+        }
         let (name, opt_name, r): (&str, String, anyhow::Result<()>) = match call {
             0 | 1 => {
                 let m = if rng.chance(0.1) { None } else { Some(rng.lrange(80e3, 250e3)) };
@@ -342,6 +389,12 @@ fn loco_sequence(ctx: &mut Ctx, rng: &mut Rng) -> (bool, bool) {
                 ctx.count("obs.loco_rejected_calls");
                 let same = |x: &Result<Option<f64>, String>, y: &Result<Option<f64>, String>| x.is_err() || x == y;
                 let same_f = |x: &Result<f64, String>, y: &Result<f64, String>| x.is_err() || x == y;
+                let fields_same = b.f_mass == a.f_mass && b.f_mu == a.f_mu && (b.f_force == a.f_force || (b.f_force.is_nan() && a.f_force.is_nan())) && b.f_baseline == a.f_baseline && b.f_ballast == a.f_ballast;
+                if !fields_same {
+                    ctx.violate("rejected_leaves_state", &format!("C20:Locomotive:rejected_call_half_applied:{name}:{opt_name}:{pat}"),
+                        format!("rejected {name}({opt_name}) with {pat} changed stored fields: mass {:?} -> {:?}, mu {:?} -> {:?}, force_max {} -> {}", b.f_mass, a.f_mass, b.f_mu, a.f_mu, b.f_force, a.f_force), json!({"log": log}));
+                    break;
+                }
                 if !(same(&b.mass, &a.mass) && same(&b.mu, &a.mu) && same_f(&b.force, &a.force)) {
                     ctx.violate("rejected_leaves_state", &format!("C20:Locomotive:rejected_call_half_applied:{name}:{opt_name}:{pat}"),
                         format!("rejected {name}({opt_name}) with {pat} changed what getters report: mass {:?} -> {:?}, mu {:?} -> {:?}, force_max {:?} -> {:?}", b.mass, a.mass, b.mu, a.mu, b.force, a.force), json!({"log": log}));
